@@ -7,7 +7,7 @@ D=$(cd "$1" && pwd)
 export GOFLAGS=-mod=mod GOPROXY=off GOSUMDB=off GOTOOLCHAIN=local
 W=/tmp/wt/confirm.$$
 git -C /repo worktree add -q --detach $W HEAD || exit 2
-trap 'git -C /repo worktree remove --force $W' EXIT
+trap 'git -C /repo worktree remove --force $W; rm -f /tmp/confirm[123].$$.*' EXIT
 cd $W
 PLACE=$(python3 -c "import json,sys;print(json.load(open('$D/meta.json'))['demo']['place_at'].split()[0])")
 RUN=$(python3 -c "
@@ -21,25 +21,25 @@ case "$PLACE" in
   *.go) mkdir -p $(dirname $PLACE); cp $D/$DEMO $PLACE;;
   *) mkdir -p $PLACE; cp $D/$DEMO $PLACE/;;
 esac
-RUN=$(echo "$RUN" | sed "s#/tmp/wt2\?/C[0-9]*#$W#g; s#<worktree>#$W#g")
+RUN=$(echo "$RUN" | sed "s#/tmp/wt[0-9]*/C[0-9]*#$W#g; s#<worktree>#$W#g")
 echo "-- demo on unchanged tree"
-( eval "$RUN" ) > /tmp/confirm1.log 2>&1; r1=$?
-tail -3 /tmp/confirm1.log
+( eval "$RUN" ) > /tmp/confirm1.$$.log 2>&1; r1=$?
+tail -3 /tmp/confirm1.$$.log
 git apply $D/patch.diff || { echo "PATCH DOES NOT APPLY"; exit 1; }
 echo "-- demo with patch"
-( eval "$RUN" ) > /tmp/confirm2.log 2>&1; r2=$?
-tail -5 /tmp/confirm2.log
+( eval "$RUN" ) > /tmp/confirm2.$$.log 2>&1; r2=$?
+tail -5 /tmp/confirm2.$$.log
 echo "-- baseline with patch (demo removed)"
 case "$PLACE" in
   *.go) rm -f $PLACE;;
   *) rm -f $PLACE/$DEMO;;
 esac
-unshare -n sh -c "ip link set lo up 2>/dev/null; go test -json -vet=off -count=1 -timeout 25m ./..." > /tmp/confirm3.json 2>/dev/null
+unshare -n sh -c "ip link set lo up 2>/dev/null; go test -json -vet=off -count=1 -timeout 25m ./..." > /tmp/confirm3.$$.json 2>/dev/null
 python3 - <<PY
 import json
 base=json.load(open('/root/.vp/BASELINE.json'))['stable_pass']
 res={}
-for l in open('/tmp/confirm3.json'):
+for l in open('/tmp/confirm3.$$.json'):
     try: e=json.loads(l)
     except: continue
     if e.get('Test') and e.get('Action') in('pass','fail'):
